@@ -236,12 +236,17 @@ func mutate(o *optSet, base *bEntry, kind string, r *hx.Rng, so [][32]byte) *bEn
 		e.key = nil
 	case "nilSig":
 		e.sig = nil
+	// wrong pre-hash length with a signature that IS valid over that string under the ph transcript: only the
+	// length check stands between it and acceptance
 	case "digestLen63":
 		e.msg = e.msg[:63]
+		resign()
 	case "digestLen65":
 		e.msg = append(e.msg, 7)
+		resign()
 	case "digestLen0":
 		e.msg = nil
+		resign()
 	default:
 		panic("kind " + kind)
 	}
